@@ -598,7 +598,7 @@ def gen_c20_mut(rng, tier):
     items = all_mutants(rng, tier)
     ops = []
     for (suf, lab, d), (ser, par) in zip(items, classify(items)):
-        if ser in ('clean', 'index'):
+        if ser == 'clean':
             ops.append('readraw %s %s' % (raw_args(suf), d.hex() or '-'))
         if par == 'clean':
             ops.append('partraw %s %s' % (suf, d.hex() or '-'))
@@ -661,20 +661,104 @@ WITNESS['count_long'] = put(bytes.fromhex(_witness('lb8l.ugrid', NODES4, dict(EM
                             2 ** 63 - 1).hex()
 
 
+def ascii_ugrid(nodes, cells):
+    """a tiny ASCII AFLR3 .ugrid: counts, xyz, tri, quad, tri ids, quad ids, tet, pyramid, prism, hex (1-based)"""
+    lines = [' '.join('%d' % n for n in [len(nodes)] + [len(cells.get(k) or []) for k in KINDS])]
+    lines += [' '.join('%.17g' % v for v in n) for n in nodes]
+    for k in ('tri', 'qua'):
+        lines += [' '.join('%d' % (x + 1) for x in c[:PER[k]]) for c in cells.get(k) or []]
+    for k in ('tri', 'qua'):
+        lines += ['%d' % c[PER[k]] for c in cells.get(k) or []]
+    for k in ('tet', 'pyr', 'pri', 'hex'):
+        lines += [' '.join('%d' % (x + 1) for x in c[:PER[k]]) for c in cells.get(k) or []]
+    return ('\n'.join(lines) + '\n').encode()
+
+
+def ascii_verdict(text):
+    """independent reading of an ASCII .ugrid: `ok` iff it has all its numbers and every vertex index is in 1..nnode"""
+    try:
+        t = text.decode().split()
+        cnt = [int(x) for x in t[:7]]
+        p = 7 + 3 * cnt[0]
+        [float(x) for x in t[7:p]]
+        for k, n in zip(('tri', 'qua'), cnt[1:3]):
+            for _ in range(n * PER[k]):
+                if not 1 <= int(t[p]) <= cnt[0]:
+                    return 'refused'
+                p += 1
+        for n in cnt[1:3]:
+            for _ in range(n):
+                int(t[p])
+                p += 1
+        for k, n in zip(('tet', 'pyr', 'pri', 'hex'), cnt[3:7]):
+            for _ in range(n * PER[k]):
+                if not 1 <= int(t[p]) <= cnt[0]:
+                    return 'refused'
+                p += 1
+        return 'ok'
+    except (ValueError, IndexError):
+        return 'refused'
+
+
+XYZ4 = [(0.0, 0.0, 0.0), (1.0, 0.0, 0.0), (0.0, 1.0, 0.0), (0.0, 0.0, 1.0)]
+ASCII_WITNESS = {
+    'ok': ascii_ugrid(XYZ4, dict(EMPTY, tri=[[0, 1, 2, 7]], tet=[[0, 1, 2, 3]])),
+    'index_zero': ascii_ugrid(XYZ4, dict(EMPTY, tet=[[0, 1, 2, -1]])),          # vertex index 0 in a tet
+    'index_above': ascii_ugrid(XYZ4, dict(EMPTY, tet=[[0, 1, 2, 4]])),          # vertex index nnode+1 = 5
+    'index_huge': ascii_ugrid(XYZ4, dict(EMPTY, tet=[[0, 1, 2, 50000000]])),
+    'tri_above': ascii_ugrid(XYZ4, dict(EMPTY, tri=[[0, 1, 4, 1]])),
+}
+
+
 def gen_c20_index(rng, tier):
-    """inputs the faithful reader models accept (serial) or have no status for (parallel) because a vertex index is not
-    compared with the number of vertices"""
-    ops = ['robust_translate lb8.ugrid ' + WITNESS['index_crash'], 'robust_part lb8.ugrid ' + WITNESS['part_index'],
-           'robust_part lb8.ugrid ' + WITNESS['part_div0'], 'robust_translate lb8.ugrid ' + WITNESS['index_small']]
-    if tier == 'quick':     # quick tier: the Lean witnesses only, so the replay is the same for every seed
+    """regression guard of finding ugrid-vertex-index-unchecked (repaired by /repo commit 6682479): the witness files must
+    be REFUSED with REF_INVALID by the static serial reader and by the parallel reader, the user-level entry points must
+    return, and the ASCII reader must refuse vertex index 0 / nnode+1; thorough: also the index mutants"""
+    ops = []
+    for w in ('index_crash', 'index_small', 'part_index', 'part_div0'):
+        ops += ['readraw 0 0 ' + WITNESS[w], 'partraw lb8.ugrid ' + WITNESS[w], 'robust_translate lb8.ugrid ' + WITNESS[w],
+                'robust_part lb8.ugrid ' + WITNESS[w]]
+    for name in sorted(ASCII_WITNESS):
+        ops.append('ascii_import %s %s' % (ascii_verdict(ASCII_WITNESS[name]), ASCII_WITNESS[name].hex()))
+    if tier == 'quick':     # quick tier: the witnesses only, so the replay is the same for every seed
         return ops
+    for _ in range(30):
+        nodes = [XYZ4[i % 4] for i in range(rng.randint(1, 6))]
+        cells = dict(EMPTY)
+        # boundary faces only or volume cells only: the orientation step after the reader has nothing to match
+        for k in (['tri', 'qua'] if rng.random() < 0.4 else rng.sample(['tet', 'pyr', 'pri', 'hex'], 2)):
+            cells[k] = [[rng.choice([0, len(nodes) - 1, len(nodes), -1, 10 ** 6, rng.randrange(len(nodes))])
+                         for _ in range(PER[k])] + ([3] if k in TAGGED else []) for _ in range(rng.randint(1, 3))]
+        text = ascii_ugrid(nodes, cells)
+        ops.append('ascii_import %s %s' % (ascii_verdict(text), text.hex()))
     items = all_mutants(rng, tier)
     for (suf, lab, d), (ser, par) in zip(items, classify(items)):
-        if ser in ('index', 'big', 'ub'):
+        if lab.startswith('index@') and ser in ('clean', 'big', 'ub'):
             ops.append('robust_translate %s %s' % (suf, d.hex() or '-'))
-        if par == 'hazard':
+        if lab.startswith('index@') and par in ('clean', 'orient', 'hazard'):
             ops.append('robust_part %s %s' % (suf, d.hex() or '-'))
-    return ops[:80]
+    return ops[:160]
+
+
+def oracle_index(ops, impl):
+    """C20, stated directly on the implementation's output: every reader comes back; the witness files of the finding and
+    every ASCII file with a vertex index outside 1..nnode are refused (non-zero status), the valid ASCII file is accepted"""
+    bad = oracle_returns(ops, impl)
+    wit = {WITNESS[w] for w in ('index_crash', 'index_small', 'part_index', 'part_div0')}
+    for i, (o, r) in enumerate(zip(ops, impl)):
+        w = o.split()
+        first = r.split()[0] if r.split() else ''
+        if w[0] in ('readraw', 'partraw') and w[-1] in wit and first in ('ok',):
+            bad.append((i, 'C20 %s ACCEPTED a file with a vertex index outside 1..nnode (%d bytes)' % (w[0], len(w[-1]) // 2)))
+        if w[0] == 'ascii_import':
+            want = ascii_verdict(bytes.fromhex(w[2]))
+            if first in ('crash', 'timeout'):
+                bad.append((i, 'C20 ASCII .ugrid reader did not return on a %d-byte input: %s' % (len(w[2]) // 2, r)))
+            elif first != want:
+                bad.append((i, 'C20 ASCII .ugrid reader: %s, but the file is %s by its own numbers (%d bytes)'
+                            % (first, 'valid' if want == 'ok' else 'malformed (vertex index outside 1..nnode or short)',
+                               len(w[2]) // 2)))
+    return bad
 
 
 def gen_c20_count(rng, tier):
@@ -698,7 +782,7 @@ C20_MUT = Stream('c20_ugrid_mut', 'h_ugrid', 'ugrid', gen_c20_mut, oracle=oracle
                  nontrivial=lambda op, out: True, session='\x00none', harness_args=['--limit', '10'])
 C20_ROBUST = Stream('c20_ugrid_robust', 'h_ugrid', 'ugrid', gen_c20_robust, oracle=oracle_returns, whitebox=['ref_import'],
                     nontrivial=lambda op, out: True, session='\x00none', harness_args=['--limit', '10'])
-C20_INDEX = Stream('c20_ugrid_index', 'h_ugrid', 'ugrid', gen_c20_index, oracle=oracle_returns, whitebox=['ref_import'],
+C20_INDEX = Stream('c20_ugrid_index', 'h_ugrid', 'ugrid', gen_c20_index, oracle=oracle_index, whitebox=['ref_import'],
                    nontrivial=lambda op, out: True, session='\x00none', harness_args=['--limit', '10'],
                    site='ugrid-vertex-index-unchecked')
 C20_COUNT = Stream('c20_ugrid_count', 'h_ugrid', 'ugrid', gen_c20_count, oracle=oracle_returns, whitebox=['ref_import'],
